@@ -370,6 +370,7 @@ def rejections(cfg, fn_node: ast.AST, defs: Defs | None = None) -> list[dict]:
         st = cfg.stmt[n]
         iters: list[tuple[str, ast.AST]] = []
         conds: list[str] = []
+        tests: list[tuple[ast.AST, bool]] = []
         dead = False
         x: ast.AST = st
         while id(x) in par:
@@ -382,14 +383,16 @@ def rejections(cfg, fn_node: ast.AST, defs: Defs | None = None) -> list[dict]:
                         break
                     if isinstance(prev, ast.If) and prev.body and isinstance(prev.body[-1], ast.Continue) and not prev.orelse:
                         conds.append(nnf(prev.test, neg=True))
+                        tests.append((prev.test, False))
         for test, truth in cfg.controls(n):
             t = defs.resolve(test) if defs is not None else test
+            tests.append((t, truth))
             its, cs = _quantified(t, truth)
             iters += its
             conds += cs
             if isinstance(test, ast.Constant) and bool(test.value) != truth:
                 dead = True
-        out.append({"node": st, "iters": iters, "conds": conds, "dead": dead})
+        out.append({"node": st, "iters": iters, "conds": conds, "tests": tests, "dead": dead})
     return out
 
 
